@@ -494,16 +494,18 @@ def c18(run):
 
 def _c18_scenarios(run):
     """The serialisation scenarios of C01-C10 (the TLC-exported file sets, maps, bitmaps, tilesets, PRT values) once more, with the
-    allocator handing out memory filled with 0x00 / 0xFF (the other checks run with 0xBE) and, in the thorough tier, with automatic
-    variables pre-filled with a pattern: the bytes written must equal the specification's encoding in every one of these environments."""
+    allocator handing out memory filled with 0x00 / 0xFF (the other checks run with 0xBE), the stack below the interpreter painted
+    with the same byte before every step and, in the thorough tier, with automatic variables pre-filled with a pattern: the bytes written must equal the specification's encoding in every one of these environments."""
     rnd = {"Seed": vlib.SEED % 300, "NRand": 300 if run.thorough else 60}
     gens = [("MC_Vol", dict(rnd, MaxFiles=3, Big="FALSE") if run.thorough else dict(rnd, MaxFiles=1, Big="FALSE"), VOL_INV),
             ("MC_Clm", dict(rnd, MaxFiles=2 if run.thorough else 1), CLM_INV),
             ("MC_Map", dict(rnd, Tier='"quick"'), MAP_INV),
             ("MC_Bmp", dict(rnd, MaxWidth=12), BMP_INV),
-            ("MC_Prt", rnd, ("Export",))]
-    envs = [("heap00", dict(ASAN_OPTIONS=vlib.ASAN_ENV + ":malloc_fill_byte=0:max_malloc_fill_size=1048576"), "san"),
-            ("heapFF", dict(ASAN_OPTIONS=vlib.ASAN_ENV + ":malloc_fill_byte=255:max_malloc_fill_size=1048576"), "san")]
+            ("MC_Prt", rnd, ("Export",)),
+            ("MC_VolRef", {}, ()),                                        # archives of the reference encoder: LZH members are decoded on extraction
+            ("MC_Lzh", {"NSym": 314, "MaxCount": 65535, "MaxToks": 1}, ())]     # the decoder on every single token (matches reaching before the start of the output) and on raw bytes
+    envs = [("heap00", dict(ASAN_OPTIONS=vlib.ASAN_ENV + ":malloc_fill_byte=0:max_malloc_fill_size=1048576", VERIF_STACK_PAINT="0"), "san"),
+            ("heapFF", dict(ASAN_OPTIONS=vlib.ASAN_ENV + ":malloc_fill_byte=255:max_malloc_fill_size=1048576", VERIF_STACK_PAINT="255"), "san")]
     if run.thorough:
         envs.append(("stackAA", dict(ASAN_OPTIONS=vlib.ASAN_ENV + ":malloc_fill_byte=85:max_malloc_fill_size=1048576"), "sanpat"))
     for module, constants, inv in gens:
